@@ -18,6 +18,37 @@ Proof. unfold count_filtered. destruct (wrap32 (s_filt st + 1) =? U32_MAX); spli
 Lemma add_payload_in st n : s_in (add_payload st n) = s_in st /\ s_mem (add_payload st n) = s_mem st.
 Proof. unfold add_payload. destruct (wrap32 (s_pay st + n) =? U32_MAX); split; reflexivity. Qed.
 
+(* ------------------------------------------------------------------ the statistics part of the state *)
+Definition sview := (N * N * N * list N * list N * list instat)%type.
+Definition view (st : sstate) : sview := (s_seen st, s_filt st, s_pay st, s_links st, s_fees st, s_out st).
+Definition with_view (v : sview) : sstate :=
+  let '(a, b, c, d, e, f) := v in
+  {| s_in := []; s_mem := 0; s_seen := a; s_filt := b; s_pay := c; s_links := d; s_fees := e; s_out := f |}.
+Definition v_seen (v : sview) (r : rdh) : sview := view (collect_seen (with_view v) r).
+Definition v_filt (v : sview) : sview := view (count_filtered (with_view v)).
+Definition v_pay (v : sview) (n : N) : sview := view (add_payload (with_view v) n).
+Definition v_emit (v : sview) (o : list instat) : sview := view (emit (with_view v) o).
+
+Lemma view_set_in st l : view (set_in st l) = view st.  Proof. reflexivity. Qed.
+Lemma view_set_mem st m : view (set_mem st m) = view st.  Proof. reflexivity. Qed.
+Lemma view_emit st o : view (emit st o) = v_emit (view st) o.  Proof. reflexivity. Qed.
+Lemma view_seen st r : view (collect_seen st r) = v_seen (view st) r.
+Proof.
+  unfold v_seen, view, collect_seen, with_view. cbn [s_seen s_filt s_pay s_links s_fees s_out s_in s_mem].
+  destruct (wrap32 (s_seen st + 1) =? U32_MAX); destruct (mem_N (r_link_id r) (s_links st));
+    destruct (mem_N (r_fee_id r) (s_fees st)); reflexivity.
+Qed.
+Lemma view_filt st : view (count_filtered st) = v_filt (view st).
+Proof.
+  unfold v_filt, view, count_filtered, with_view. cbn [s_seen s_filt s_pay s_links s_fees s_out s_in s_mem].
+  destruct (wrap32 (s_filt st + 1) =? U32_MAX); reflexivity.
+Qed.
+Lemma view_pay st n : view (add_payload st n) = v_pay (view st) n.
+Proof.
+  unfold v_pay, view, add_payload, with_view. cbn [s_seen s_filt s_pay s_links s_fees s_out s_in s_mem].
+  destruct (wrap32 (s_pay st + n) =? U32_MAX); reflexivity.
+Qed.
+
 (* ------------------------------------------------------------------ one well-framed packet *)
 Definition matches_opt (f : option ftarget) (r : rdh) : bool :=
   match f with None => true | Some t => matches t r end.
@@ -152,6 +183,29 @@ Proof.
   rewrite E. reflexivity.
 Qed.
 
+(* ---- what the statistics become, packet by packet ---- *)
+Definition v_first (off : N) (v : sview) (r : rdh) : sview :=
+  if off =? 0 then v_emit v [IS_trig (r_trigger_type r); IS_fmt (rdh_data_format r); IS_sysid (r_system_id r)] else v.
+Definition v_hit (c : scfg) (v : sview) : sview := match sc_filter c with Some _ => v_filt v | None => v end.
+(* one visited header, without the payload-size accumulation of a returned packet *)
+Definition v_pkt0 (c : scfg) (off : N) (v : sview) (p : packet) : sview :=
+  let r := decode_rdh (p_hdr p) in
+  let v2 := v_seen (v_first off v r) r in
+  if pmatch c p then v_hit c v2 else v2.
+(* through the first matching packet (inclusive) or the end of the list *)
+Fixpoint v_until (c : scfg) (off : N) (v : sview) (pkts : list packet) : sview :=
+  match pkts with
+  | [] => v
+  | p :: r => if pmatch c p then v_pkt0 c off v p else v_until c (off + p_size p) (v_pkt0 c off v p) r
+  end.
+Definition v_pkt (c : scfg) (off : N) (v : sview) (p : packet) : sview :=
+  if pmatch c p then v_pay (v_pkt0 c off v p) (rdh_payload_size (decode_rdh (p_hdr p))) else v_pkt0 c off v p.
+Fixpoint v_pkts (c : scfg) (off : N) (v : sview) (pkts : list packet) : sview :=
+  match pkts with
+  | [] => v
+  | p :: r => v_pkts c (off + p_size p) (v_pkt c off v p) r
+  end.
+
 (* ---- the filter loop standing at the tail ---- *)
 Inductive tail_res := TR_eof | TR_match (p : packet) (j : nat) | TR_invalid_input.
 Definition tail_loop (c : scfg) (t : tail) : tail_res :=
@@ -164,7 +218,7 @@ Definition tail_loop (c : scfg) (t : tail) : tail_res :=
 Lemma filter_loop_tail c ft : sc_filter c = Some ft -> forall t fuel st off,
   tail_ok t -> (need t <= fuel)%nat -> s_in st = tail_bytes t -> s_mem st = off ->
   match tail_loop c t with
-  | TR_eof => exists st', filter_loop fuel c ft st = (st', SErr E_eof) /\ s_in st' = []
+  | TR_eof => exists st', filter_loop fuel c ft st = (st', SErr E_eof) /\ s_in st' = [] /\ (t = TL_none -> view st' = view st)
   | TR_match p j => exists st', filter_loop fuel c ft st = (st', SOk (decode_rdh (p_hdr p))) /\
                                 s_in st' = firstn j (p_payload p) /\ s_mem st' = off
   | TR_invalid_input => exists st', filter_loop fuel c ft st = (st', SErr E_invalid_input) /\ s_in st' = []
@@ -172,9 +226,9 @@ Lemma filter_loop_tail c ft : sc_filter c = Some ft -> forall t fuel st off,
 Proof.
   intros Hf t fuel st off Hok Hfuel Hin Hmem.
   destruct t as [|b|p j]; cbn [tail_loop tail_bytes need tail_ok] in *.
-  - destruct fuel as [|f]; [lia|]. cbn [filter_loop]. rewrite (read_eof st Hin). eexists; split; reflexivity.
+  - destruct fuel as [|f]; [lia|]. cbn [filter_loop]. rewrite (read_eof st Hin). eexists; split; [reflexivity|]. split; [reflexivity|intros _; reflexivity].
   - destruct fuel as [|f]; [lia|]. cbn [filter_loop].
-    rewrite (read_short st) by (rewrite Hin; exact Hok). eexists; split; reflexivity.
+    rewrite (read_short st) by (rewrite Hin; exact Hok). eexists; split; [reflexivity|]. split; [reflexivity|discriminate].
   - destruct Hok as [Hp Hj]. destruct fuel as [|[|f]]; [lia|lia|]. cbn [filter_loop].
     rewrite (read_cut_hdr st p j Hp Hin). rewrite (wf_offset_ok p Hp). cbn [negb].
     unfold pmatch. rewrite Hf. cbn [matches_opt].
@@ -188,42 +242,56 @@ Proof.
       assert (Hin2 : s_in st2 = firstn j (p_payload p)) by (subst st2; cbn; exact Hi2).
       rewrite (seek_cut (sc_src c) st2 p j Hj Hin2).
       destruct (sc_src c).
-      * rewrite (read_eof (set_in st2 []) eq_refl). eexists; split; reflexivity.
+      * rewrite (read_eof (set_in st2 []) eq_refl). eexists; split; [reflexivity|]. split; [reflexivity|discriminate].
       * eexists; split; reflexivity.
 Qed.
 
 (* ------------------------------------------------------------------ the filter loop *)
 Definition tail_off (off : N) (pkts : list packet) : N := off + total_size pkts.
 
+Lemma v_pkt0_loop c t off v p : sc_filter c = Some t -> 0 < off ->
+  v_pkt0 c off v p = (let v2 := v_seen v (decode_rdh (p_hdr p)) in if matches t (decode_rdh (p_hdr p)) then v_filt v2 else v2).
+Proof.
+  intros Hf Ho. unfold v_pkt0, v_first, v_hit, pmatch. rewrite Hf. cbn [matches_opt].
+  assert (E : off =? 0 = false) by (apply N.eqb_neq; lia). rewrite E. reflexivity.
+Qed.
+
 Lemma filter_loop_spec c t : sc_filter c = Some t -> forall pkts tl fuel st off,
-  Forall wf_pkt pkts -> tail_ok tl -> (length pkts + need tl <= fuel)%nat -> at_pkts st off pkts tl ->
+  Forall wf_pkt pkts -> tail_ok tl -> (length pkts + need tl <= fuel)%nat -> at_pkts st off pkts tl -> 0 < off ->
   match split_match c off pkts with
   | Some (off', p, rest) =>
       exists st', filter_loop fuel c t st = (st', SOk (decode_rdh (p_hdr p))) /\
-                  s_in st' = p_payload p ++ serialize rest ++ tail_bytes tl /\ s_mem st' = off'
+                  s_in st' = p_payload p ++ serialize rest ++ tail_bytes tl /\ s_mem st' = off' /\
+                  view st' = v_until c off (view st) pkts
   | None =>
       match tail_loop c tl with
-      | TR_eof => exists st', filter_loop fuel c t st = (st', SErr E_eof) /\ s_in st' = []
+      | TR_eof => exists st', filter_loop fuel c t st = (st', SErr E_eof) /\ s_in st' = [] /\
+                              (tl = TL_none -> view st' = v_until c off (view st) pkts)
       | TR_match p j => exists st', filter_loop fuel c t st = (st', SOk (decode_rdh (p_hdr p))) /\
                                     s_in st' = firstn j (p_payload p) /\ s_mem st' = tail_off off pkts
       | TR_invalid_input => exists st', filter_loop fuel c t st = (st', SErr E_invalid_input) /\ s_in st' = []
       end
   end.
 Proof.
-  intros Hf. induction pkts as [|p r IH]; intros tl fuel st off Hwf Hok Hfuel [Hin Hmem].
+  intros Hf. induction pkts as [|p r IH]; intros tl fuel st off Hwf Hok Hfuel [Hin Hmem] Hpos.
   - cbn [split_match]. cbn [serialize concat map app] in Hin.
     pose proof (filter_loop_tail c t Hf tl fuel st off Hok ltac:(cbn in Hfuel; lia) Hin Hmem) as H.
-    unfold tail_off, total_size. cbn [fold_right]. rewrite N.add_0_r. exact H.
+    unfold tail_off, total_size. cbn [fold_right v_until]. rewrite N.add_0_r. exact H.
   - destruct fuel as [|f]; [cbn in Hfuel; lia|].
     pose proof (Forall_inv Hwf) as Hp; pose proof (Forall_inv_tail Hwf) as Hr.
-    cbn [split_match filter_loop]. rewrite serialize_cons, <- app_assoc in Hin.
+    cbn [split_match filter_loop v_until]. rewrite serialize_cons, <- app_assoc in Hin.
     rewrite (read_hdr st p (serialize r ++ tail_bytes tl) Hp Hin). rewrite (wf_offset_ok p Hp). cbn [negb].
-    unfold pmatch at 1. rewrite Hf. cbn [matches_opt].
+    rewrite (v_pkt0_loop c t off (view st) p Hf Hpos). cbn zeta.
+    assert (Hpm : pmatch c p = matches t (decode_rdh (p_hdr p))) by (unfold pmatch; rewrite Hf; reflexivity).
+    rewrite !Hpm.
     set (st1 := set_in st (p_payload p ++ serialize r ++ tail_bytes tl)).
     destruct (collect_seen_in st1 (decode_rdh (p_hdr p))) as [Hi2 Hm2].
+    assert (Hv2 : view (collect_seen st1 (decode_rdh (p_hdr p))) = v_seen (view st) (decode_rdh (p_hdr p)))
+      by (rewrite view_seen; reflexivity).
     destruct (matches t (decode_rdh (p_hdr p))) eqn:Hm.
     + destruct (count_filtered_in (collect_seen st1 (decode_rdh (p_hdr p)))) as [Hi3 Hm3].
-      eexists; split; [reflexivity|]. rewrite Hi3, Hi2, Hm3, Hm2. split; [reflexivity|exact Hmem].
+      eexists; split; [reflexivity|]. rewrite Hi3, Hi2, Hm3, Hm2. split; [reflexivity|]. split; [exact Hmem|].
+      rewrite view_filt, Hv2. reflexivity.
     + unfold seek_next. rewrite (wf_offset p Hp).
       set (st2 := set_mem (collect_seen st1 (decode_rdh (p_hdr p))) _).
       assert (Hin2 : s_in st2 = p_payload p ++ serialize r ++ tail_bytes tl) by (subst st2; cbn; exact Hi2).
@@ -231,8 +299,12 @@ Proof.
       assert (Hto : tail_off off (p :: r) = tail_off (off + p_size p) r).
       { unfold tail_off, total_size. cbn [fold_right]. lia. }
       rewrite Hto.
-      apply IH; [exact Hr | exact Hok | cbn in Hfuel; lia |].
-      split; [reflexivity|]. subst st2. cbn. rewrite Hm2. subst st1. cbn. rewrite Hmem. reflexivity.
+      assert (Hat : at_pkts (set_in st2 (serialize r ++ tail_bytes tl)) (off + p_size p) r tl).
+      { split; [reflexivity|]. subst st2. cbn. rewrite Hm2. subst st1. cbn. rewrite Hmem. reflexivity. }
+      pose proof (IH tl f (set_in st2 (serialize r ++ tail_bytes tl)) (off + p_size p) Hr Hok
+                    ltac:(cbn in Hfuel; lia) Hat ltac:(unfold p_size; lia)) as IH'.
+      assert (Hv3 : view (set_in st2 (serialize r ++ tail_bytes tl)) = v_seen (view st) (decode_rdh (p_hdr p))) by exact Hv2.
+      rewrite Hv3 in IH'. exact IH'.
 Qed.
 
 (* ------------------------------------------------------------------ load_cdp on a packet list *)
@@ -274,7 +346,7 @@ Qed.
 Lemma load_rdh_cru_tail c tl fuel st off :
   tail_ok tl -> (need tl <= S fuel)%nat -> s_in st = tail_bytes tl -> s_mem st = off ->
   match tail_loop c tl with
-  | TR_eof => exists st', load_rdh_cru fuel c st = (st', SErr E_eof) /\ s_in st' = []
+  | TR_eof => exists st', load_rdh_cru fuel c st = (st', SErr E_eof) /\ s_in st' = [] /\ (tl = TL_none -> view st' = view st)
   | TR_match p j => exists st', load_rdh_cru fuel c st = (st', SOk (decode_rdh (p_hdr p))) /\
                                 s_in st' = firstn j (p_payload p) /\ s_mem st' = off
   | TR_invalid_input => exists st', load_rdh_cru fuel c st = (st', SErr E_invalid_input) /\ s_in st' = []
@@ -282,8 +354,8 @@ Lemma load_rdh_cru_tail c tl fuel st off :
 Proof.
   intros Hok Hfuel Hin Hmem. unfold load_rdh_cru.
   destruct tl as [|b|p j]; cbn [tail_loop tail_bytes need tail_ok] in *.
-  - rewrite (read_eof st Hin). eexists; split; reflexivity.
-  - rewrite (read_short st) by (rewrite Hin; exact Hok). eexists; split; reflexivity.
+  - rewrite (read_eof st Hin). eexists; split; [reflexivity|]. split; [reflexivity|intros _; reflexivity].
+  - rewrite (read_short st) by (rewrite Hin; exact Hok). eexists; split; [reflexivity|]. split; [reflexivity|discriminate].
   - destruct Hok as [Hp Hj].
     rewrite (read_cut_hdr st p j Hp Hin).
     set (st1 := set_in st (firstn j (p_payload p))).
@@ -305,7 +377,7 @@ Proof.
         rewrite (seek_cut (sc_src c) s3 p j Hj HiS).
         destruct (sc_src c).
         -- destruct fuel as [|f]; [lia|]. cbn [filter_loop].
-           rewrite (read_eof (set_in s3 []) eq_refl). eexists; split; reflexivity.
+           rewrite (read_eof (set_in s3 []) eq_refl). eexists; split; [reflexivity|]. split; [reflexivity|discriminate].
         -- eexists; split; reflexivity.
     + destruct (add_payload_in (collect_seen st2 (decode_rdh (p_hdr p))) (rdh_payload_size (decode_rdh (p_hdr p)))) as [Hi5 Hm5].
       eexists; split; [reflexivity|]. rewrite Hi5, Hi3, Hm5, Hm3. split; assumption.
@@ -316,10 +388,12 @@ Lemma load_rdh_cru_spec c pkts tl fuel st off :
   match split_match c off pkts with
   | Some (off', q, rest) =>
       exists st', load_rdh_cru fuel c st = (st', SOk (decode_rdh (p_hdr q))) /\
-                  s_in st' = p_payload q ++ serialize rest ++ tail_bytes tl /\ s_mem st' = off'
+                  s_in st' = p_payload q ++ serialize rest ++ tail_bytes tl /\ s_mem st' = off' /\
+                  view st' = v_pay (v_until c off (view st) pkts) (rdh_payload_size (decode_rdh (p_hdr q)))
   | None =>
       match tail_loop c tl with
-      | TR_eof => exists st', load_rdh_cru fuel c st = (st', SErr E_eof) /\ s_in st' = []
+      | TR_eof => exists st', load_rdh_cru fuel c st = (st', SErr E_eof) /\ s_in st' = [] /\
+                              (tl = TL_none -> view st' = v_until c off (view st) pkts)
       | TR_match p j => exists st', load_rdh_cru fuel c st = (st', SOk (decode_rdh (p_hdr p))) /\
                                     s_in st' = firstn j (p_payload p) /\ s_mem st' = tail_off off pkts
       | TR_invalid_input => exists st', load_rdh_cru fuel c st = (st', SErr E_invalid_input) /\ s_in st' = []
@@ -330,25 +404,31 @@ Proof.
   destruct pkts as [|p r].
   - cbn [split_match]. cbn [serialize concat map app] in Hin.
     pose proof (load_rdh_cru_tail c tl fuel st off Hok ltac:(cbn in Hfuel; lia) Hin Hmem) as H.
-    unfold tail_off, total_size. cbn [fold_right]. rewrite N.add_0_r. exact H.
+    unfold tail_off, total_size. cbn [fold_right v_until]. rewrite N.add_0_r. exact H.
   - unfold load_rdh_cru.
     pose proof (Forall_inv Hwf) as Hp; pose proof (Forall_inv_tail Hwf) as Hr.
     rewrite serialize_cons, <- app_assoc in Hin.
     rewrite (read_hdr st p (serialize r ++ tail_bytes tl) Hp Hin).
     set (st1 := set_in st (p_payload p ++ serialize r ++ tail_bytes tl)).
+    set (r0 := decode_rdh (p_hdr p)).
     set (st2 := if s_mem st1 =? 0 then emit st1 _ else st1).
-    assert (H2 : s_in st2 = p_payload p ++ serialize r ++ tail_bytes tl /\ s_mem st2 = off).
-    { subst st2. destruct (s_mem st1 =? 0); split; try reflexivity; exact Hmem. }
-    destruct H2 as [Hi2 Hm2].
-    destruct (collect_seen_in st2 (decode_rdh (p_hdr p))) as [Hi3 Hm3].
-    rewrite (wf_offset_ok p Hp). cbn [negb].
-    cbn [split_match]. unfold pmatch at 1.
+    assert (H2 : s_in st2 = p_payload p ++ serialize r ++ tail_bytes tl /\ s_mem st2 = off /\ view st2 = v_first off (view st) r0).
+    { subst st2. unfold v_first. change (s_mem st1) with (s_mem st). rewrite Hmem.
+      destruct (off =? 0); repeat split; try reflexivity; exact Hmem. }
+    destruct H2 as (Hi2 & Hm2 & Hv2).
+    destruct (collect_seen_in st2 r0) as [Hi3 Hm3].
+    assert (Hv3 : view (collect_seen st2 r0) = v_seen (v_first off (view st) r0) r0) by (rewrite view_seen, Hv2; reflexivity).
+    subst r0. rewrite (wf_offset_ok p Hp). cbn [negb].
+    cbn [split_match v_until]. unfold v_pkt0. cbn zeta. unfold v_hit.
+    assert (Hpm : pmatch c p = matches_opt (sc_filter c) (decode_rdh (p_hdr p))) by reflexivity.
+    rewrite !Hpm.
     destruct (sc_filter c) as [t|] eqn:Hf; cbn [matches_opt].
     + destruct (matches t (decode_rdh (p_hdr p))) eqn:Hm.
       * destruct (count_filtered_in (collect_seen st2 (decode_rdh (p_hdr p)))) as [Hi4 Hm4].
         set (s4 := count_filtered _) in *.
         destruct (add_payload_in s4 (rdh_payload_size (decode_rdh (p_hdr p)))) as [Hi5 Hm5].
-        eexists; split; [reflexivity|]. rewrite Hi5, Hi4, Hi3, Hm5, Hm4, Hm3. split; assumption.
+        eexists; split; [reflexivity|]. rewrite Hi5, Hi4, Hi3, Hm5, Hm4, Hm3. split; [assumption|]. split; [assumption|].
+        rewrite view_pay. subst s4. rewrite view_filt, Hv3. reflexivity.
       * unfold seek_next. rewrite (wf_offset p Hp).
         set (s3 := set_mem (collect_seen st2 (decode_rdh (p_hdr p))) _).
         assert (HiS : s_in s3 = p_payload p ++ serialize r ++ tail_bytes tl) by (subst s3; cbn; rewrite Hi3; exact Hi2).
@@ -356,28 +436,32 @@ Proof.
         assert (Hat : at_pkts (set_in s3 (serialize r ++ tail_bytes tl)) (off + p_size p) r tl).
         { split; [reflexivity|]. subst s3. cbn. rewrite Hm3, Hm2. reflexivity. }
         pose proof (filter_loop_spec c t Hf r tl fuel (set_in s3 (serialize r ++ tail_bytes tl)) (off + p_size p) Hr Hok
-                      ltac:(cbn in Hfuel; lia) Hat) as HL.
+                      ltac:(cbn in Hfuel; lia) Hat ltac:(unfold p_size; lia)) as HL.
+        assert (Hv4 : view (set_in s3 (serialize r ++ tail_bytes tl)) = v_seen (v_first off (view st) (decode_rdh (p_hdr p))) (decode_rdh (p_hdr p))) by exact Hv3.
+        rewrite Hv4 in HL.
         assert (Hto : tail_off off (p :: r) = tail_off (off + p_size p) r).
         { unfold tail_off, total_size. cbn [fold_right]. lia. }
         rewrite Hto.
         destruct (split_match c (off + p_size p) r) as [[[off' q] rest]|].
-        -- destruct HL as (st' & HL & HiL & HmL). rewrite HL.
+        -- destruct HL as (st' & HL & HiL & HmL & HvL). rewrite HL.
            destruct (add_payload_in st' (rdh_payload_size (decode_rdh (p_hdr q)))) as [Hi5 Hm5].
-           eexists; split; [reflexivity|]. rewrite Hi5, Hm5. split; assumption.
+           eexists; split; [reflexivity|]. rewrite Hi5, Hm5. split; [assumption|]. split; [assumption|].
+           rewrite view_pay, HvL. reflexivity.
         -- destruct (tail_loop c tl) as [|q j|].
-           ++ destruct HL as (st' & HL & HiL). rewrite HL. eexists; split; [reflexivity|exact HiL].
+           ++ destruct HL as (st' & HL & HiL & HvL). rewrite HL. eexists; split; [reflexivity|]. split; [exact HiL|exact HvL].
            ++ destruct HL as (st' & HL & HiL & HmL). rewrite HL.
               destruct (add_payload_in st' (rdh_payload_size (decode_rdh (p_hdr q)))) as [Hi5 Hm5].
               eexists; split; [reflexivity|]. rewrite Hi5, Hm5. split; assumption.
            ++ destruct HL as (st' & HL & HiL). rewrite HL. eexists; split; [reflexivity|exact HiL].
     + destruct (add_payload_in (collect_seen st2 (decode_rdh (p_hdr p))) (rdh_payload_size (decode_rdh (p_hdr p)))) as [Hi5 Hm5].
-      eexists; split; [reflexivity|]. rewrite Hi5, Hi3, Hm5, Hm3. split; assumption.
+      eexists; split; [reflexivity|]. rewrite Hi5, Hi3, Hm5, Hm3. split; [assumption|]. split; [assumption|].
+      rewrite view_pay, Hv3. reflexivity.
 Qed.
 
 Lemma finish_cdp_spec c st q rest tl off : wf_pkt q ->
   s_in st = p_payload q ++ serialize rest ++ tail_bytes tl -> s_mem st = off ->
   exists st', finish_cdp c st (decode_rdh (p_hdr q)) off = (st', SOk (mk_cdp c (off, q))) /\
-              at_pkts st' (off + p_size q) rest tl.
+              at_pkts st' (off + p_size q) rest tl /\ view st' = view st.
 Proof.
   intros Hq Hi Hm. unfold finish_cdp, mk_cdp. cbn [fst snd].
   destruct (sc_skip c).
@@ -385,12 +469,12 @@ Proof.
     set (sB := set_mem st _).
     assert (HiB : s_in sB = p_payload q ++ serialize rest ++ tail_bytes tl) by (subst sB; exact Hi).
     rewrite (seek_payload (sc_src c) sB q _ Hq HiB).
-    eexists; split; [reflexivity|]. split; [reflexivity|]. subst sB. cbn. rewrite Hm. reflexivity.
+    eexists; split; [reflexivity|]. split; [split; [reflexivity|]; subst sB; cbn; rewrite Hm; reflexivity|reflexivity].
   - rewrite (wf_offset q Hq), (wf_payload_size q Hq).
     set (sB := set_mem st _).
     assert (HiB : s_in sB = p_payload q ++ serialize rest ++ tail_bytes tl) by (subst sB; exact Hi).
     rewrite (read_payload sB q _ Hq HiB).
-    eexists; split; [reflexivity|]. split; [reflexivity|]. subst sB. cbn. rewrite Hm. reflexivity.
+    eexists; split; [reflexivity|]. split; [split; [reflexivity|]; subst sB; cbn; rewrite Hm; reflexivity|reflexivity].
 Qed.
 
 (* the packet whose payload is cut: its header is still handed on, with an empty payload;
@@ -431,25 +515,44 @@ Lemma load_cdp_spec c pkts tl fuel st off :
   Forall wf_pkt pkts -> tail_ok tl -> (length pkts + need tl <= S fuel)%nat -> at_pkts st off pkts tl ->
   match load_outcome c off pkts tl with
   | LR_cdp off' q rest => exists st', load_cdp true fuel c st = (st', SOk (mk_cdp c (off', q))) /\
-                                      at_pkts st' (off' + p_size q) rest tl
+                                      at_pkts st' (off' + p_size q) rest tl /\
+                                      view st' = v_pay (v_until c off (view st) pkts) (rdh_payload_size (decode_rdh (p_hdr q)))
   | LR_cut off' p => exists st', load_cdp true fuel c st = (st', SOk (cut_cdp off' p)) /\ s_in st' = []
-  | LR_eof => exists st', load_cdp true fuel c st = (st', SErr E_eof) /\ s_in st' = []
+  | LR_eof => exists st', load_cdp true fuel c st = (st', SErr E_eof) /\ s_in st' = [] /\
+                          (tl = TL_none -> view st' = v_until c off (view st) pkts)
   | LR_invalid_input => exists st', load_cdp true fuel c st = (st', SErr E_invalid_input) /\ s_in st' = []
   end.
 Proof.
   intros Hwf Hok Hfuel Hat. unfold load_cdp, load_outcome.
   pose proof (load_rdh_cru_spec c pkts tl fuel st off Hwf Hok Hfuel Hat) as HL.
   destruct (split_match c off pkts) as [[[off' q] rest]|] eqn:Hs.
-  - destruct HL as (st1 & HL & Hi & Hm). rewrite HL.
+  - destruct HL as (st1 & HL & Hi & Hm & Hv). rewrite HL.
     destruct (split_match_wf c pkts off off' q rest Hwf Hs) as [Hq _].
-    rewrite Hm. apply finish_cdp_spec; assumption.
+    rewrite Hm. destruct (finish_cdp_spec c st1 q rest tl off' Hq Hi Hm) as (st2 & E & A & V).
+    exists st2. split; [exact E|]. split; [exact A|]. rewrite V. exact Hv.
   - destruct tl as [|b|p j]; cbn [tail_loop] in *.
-    + destruct HL as (st1 & HL & Hi). rewrite HL. eexists; split; [reflexivity|exact Hi].
-    + destruct HL as (st1 & HL & Hi). rewrite HL. eexists; split; [reflexivity|exact Hi].
+    + destruct HL as (st1 & HL & Hi & Hv). rewrite HL. eexists; split; [reflexivity|]. split; [exact Hi|exact Hv].
+    + destruct HL as (st1 & HL & Hi & Hv). rewrite HL. eexists; split; [reflexivity|]. split; [exact Hi|exact Hv].
     + destruct (pmatch c p) eqn:Hpm.
       * destruct HL as (st1 & HL & Hi & Hm). rewrite HL, Hm.
         destruct Hok as [Hp Hj]. apply finish_cdp_cut with (j := j); assumption.
-      * destruct (sc_src c); destruct HL as (st1 & HL & Hi); rewrite HL; eexists; (split; [reflexivity|exact Hi]).
+      * destruct (sc_src c).
+        -- destruct HL as (st1 & HL & Hi & Hv). rewrite HL. eexists; split; [reflexivity|]. split; [exact Hi|exact Hv].
+        -- destruct HL as (st1 & HL & Hi). rewrite HL. eexists; split; [reflexivity|exact Hi].
+Qed.
+
+Lemma v_pkts_split c : forall pkts off v off' q rest, split_match c off pkts = Some (off', q, rest) ->
+  v_pkts c off v pkts = v_pkts c (off' + p_size q) (v_pay (v_until c off v pkts) (rdh_payload_size (decode_rdh (p_hdr q)))) rest.
+Proof.
+  induction pkts as [|p r IH]; intros off v off' q rest H; cbn [split_match] in H; [discriminate|].
+  cbn [v_pkts v_until]. unfold v_pkt. destruct (pmatch c p) eqn:Hm.
+  - injection H as <- <- <-. reflexivity.
+  - apply IH, H.
+Qed.
+Lemma v_pkts_none c : forall pkts off v, split_match c off pkts = None -> v_pkts c off v pkts = v_until c off v pkts.
+Proof.
+  induction pkts as [|p r IH]; intros off v H; cbn [split_match] in H; [reflexivity|].
+  cbn [v_pkts v_until]. unfold v_pkt. destruct (pmatch c p) eqn:Hm; [discriminate|]. apply IH, H.
 Qed.
 
 (* ------------------------------------------------------------------ the whole scan *)
@@ -489,37 +592,41 @@ Lemma scan_flat_spec c : forall n pkts tl fuel st off,
   (length pkts <= n)%nat -> Forall wf_pkt pkts -> tail_ok tl -> (length pkts + need tl < fuel)%nat ->
   at_pkts st off pkts tl ->
   exists st', scan_flat true fuel c st =
-              (st', map (mk_cdp c) (selected c off pkts) ++ tail_cdps c (tail_off off pkts) tl, tail_end c tl).
+              (st', map (mk_cdp c) (selected c off pkts) ++ tail_cdps c (tail_off off pkts) tl, tail_end c tl) /\
+              (tl = TL_none -> view st' = v_pkts c off (view st) pkts).
 Proof.
   induction n as [|n IH]; intros pkts tl fuel st off Hn Hwf Hok Hfuel Hat.
   - destruct pkts; [|cbn in Hn; lia].
     destruct fuel as [|f]; [lia|]. cbn [scan_flat].
     pose proof (load_cdp_spec c [] tl f st off Hwf Hok ltac:(cbn in *; lia) Hat) as HL.
     unfold load_outcome in HL. cbn [split_match] in HL.
-    unfold tail_cdps, tail_end. cbn [selected with_offsets filter map app].
+    unfold tail_cdps, tail_end. cbn [selected with_offsets filter map app v_pkts].
     destruct (tail_loop c tl) as [|p j|] eqn:Ht.
-    + destruct HL as (st' & HL & _). rewrite HL. eexists; reflexivity.
+    + destruct HL as (st' & HL & _ & Hv). rewrite HL. eexists; split; [reflexivity|]. intros E. rewrite (Hv E). reflexivity.
     + destruct HL as (st1 & HL & Hi). rewrite HL.
       (* after the cut packet the input is exhausted: one more load sees EOF *)
       destruct f as [|f']; [destruct tl; cbn in *; try discriminate; lia|].
-      cbn [scan_flat]. unfold load_cdp, load_rdh_cru. rewrite (read_eof st1 Hi). eexists; reflexivity.
-    + destruct HL as (st' & HL & _). rewrite HL. eexists; reflexivity.
+      cbn [scan_flat]. unfold load_cdp, load_rdh_cru. rewrite (read_eof st1 Hi). eexists; split; [reflexivity|].
+      intros E. subst tl. discriminate.
+    + destruct HL as (st' & HL & _). rewrite HL. eexists; split; [reflexivity|]. intros E. subst tl. discriminate.
   - destruct fuel as [|f]; [lia|]. cbn [scan_flat].
     pose proof (load_cdp_spec c pkts tl f st off Hwf Hok ltac:(lia) Hat) as HL.
     unfold load_outcome in HL. rewrite selected_split.
     destruct (split_match c off pkts) as [[[off' q] rest]|] eqn:Hs.
-    + destruct HL as (st1 & HL & Hat1). rewrite HL.
+    + destruct HL as (st1 & HL & Hat1 & Hv1). rewrite HL.
       destruct (split_match_wf c pkts off off' q rest Hwf Hs) as [_ Hrest].
       pose proof (split_match_length c pkts off off' q rest Hs) as Hlen.
-      destruct (IH rest tl f st1 (off' + p_size q) ltac:(lia) Hrest Hok ltac:(lia) Hat1) as (st2 & H2).
-      rewrite H2. rewrite (tail_off_split c pkts off off' q rest Hs). eexists; reflexivity.
+      destruct (IH rest tl f st1 (off' + p_size q) ltac:(lia) Hrest Hok ltac:(lia) Hat1) as (st2 & H2 & Hv2).
+      rewrite H2. rewrite (tail_off_split c pkts off off' q rest Hs). eexists; split; [reflexivity|].
+      intros E. rewrite (Hv2 E), Hv1. symmetry. apply v_pkts_split, Hs.
     + unfold tail_cdps, tail_end. cbn [map app].
       destruct (tail_loop c tl) as [|p j|] eqn:Ht.
-      * destruct HL as (st' & HL & _). rewrite HL. eexists; reflexivity.
+      * destruct HL as (st' & HL & _ & Hv). rewrite HL. eexists; split; [reflexivity|]. intros E. rewrite (Hv E). symmetry. apply v_pkts_none, Hs.
       * destruct HL as (st1 & HL & Hi). rewrite HL.
         destruct f as [|f']; [destruct tl; cbn in *; try discriminate; lia|].
-        cbn [scan_flat]. unfold load_cdp, load_rdh_cru. rewrite (read_eof st1 Hi). eexists; reflexivity.
-      * destruct HL as (st' & HL & _). rewrite HL. eexists; reflexivity.
+        cbn [scan_flat]. unfold load_cdp, load_rdh_cru. rewrite (read_eof st1 Hi). eexists; split; [reflexivity|].
+        intros E. subst tl. discriminate.
+      * destruct HL as (st' & HL & _). rewrite HL. eexists; split; [reflexivity|]. intros E. subst tl. discriminate.
 Qed.
 
 (* ------------------------------------------------------------------ batches *)
@@ -588,7 +695,7 @@ Proof.
   intros -> c pkts Hwf. unfold scan.
   destruct (scan_flat_spec c (length pkts) pkts TL_none (scan_fuel (serialize pkts)) (sinit (serialize pkts)) 0
               (le_n _) Hwf I (scan_fuel_enough pkts Hwf)
-              (conj (eq_sym (app_nil_r _)) eq_refl)) as (st' & H).
+              (conj (eq_sym (app_nil_r _)) eq_refl)) as (st' & H & _).
   rewrite H. unfold tail_cdps, tail_end. cbn [tail_loop]. rewrite app_nil_r. cbn [so_batches so_end batches_of].
   split; [reflexivity|]. split; [apply chunk_concat, CAP_pos | reflexivity].
 Qed.
